@@ -164,7 +164,8 @@ def parse_interactions(lines, comments='#', directed=False, delimiter=None, node
 
 
 def generate_snapshots(G, delimiter=' '):
-    for u, v, d in G.interactions():
+    # on a directed graph interactions() lists a reciprocal pair once: walk the out-interactions instead
+    for u, v, d in (G.out_interactions() if G.is_directed() else G.interactions()):
         if 't' not in d:
             raise NotImplemented
         for t in d['t']:
